@@ -24,6 +24,7 @@ fn op_strategy() -> impl Strategy<Value = Op> {
     prop_oneof![
         5 => (r4.clone(), keysel()).prop_map(|(role, sel)| Op::SetKey { role, sel }),
         3 => r4.clone().prop_map(|role| Op::RemoveKey { role }),
+        2 => r4.clone().prop_map(|role| Op::FrozenRemoveKey { role }),
         3 => r4.clone().prop_map(|role| Op::Close { role }),
         3 => (r4.clone(), any::<bool>()).prop_map(|(role, connect)| Op::Open { role, connect }),
         1 => Just(Op::Restart),
@@ -103,6 +104,8 @@ fn canonical() -> Vec<Case> {
             },
             body_sample: None,
         },
+        // revocations while the primary database (the key registry's home) is read-only
+        Case { ops: vec![FrozenRemoveKey { role: a }, FrozenRemoveKey { role: b }, Restart, FrozenRemoveKey { role: a }], body_sample: None },
         // everything, with restarts in between
         Case {
             ops: vec![
@@ -164,14 +167,14 @@ fn main() {
     let t = &tables;
     r.sub_enum(
         "canonical_histories",
-        "8 fixed admin histories (plain fixture; read-only database and collections; restart; close/reopen; key life cycle with generated and reused keys; every binding removed - the empty key map - with and without restarts; all combined), each followed by the COMPLETE request matrix in six name-rotated worlds; non-trivial = the matrix contains requests by database-bound or revoked keys (always)",
+        "9 fixed admin histories (plain fixture; revocations while the primary database is read-only; read-only database and collections; restart; close/reopen; key life cycle with generated and reused keys; every binding removed - the empty key map - with and without restarts; all combined), each followed by the COMPLETE request matrix in six name-rotated worlds; non-trivial = the matrix contains requests by database-bound or revoked keys (always)",
         true,
         canonical(),
         |c, ctx| run_case(t, c, ctx),
     );
     r.sub(
         "generated_histories",
-        "1-13 generated admin actions, a quarter of them on top of the empty key map (every fixture binding removed first), (set_api_key supplied / generated / reusing a retired key, remove_api_key, close, open/connect, restart, database and collection read-only, document and extension writes, flush) on top of the fixture, then the COMPLETE request matrix in six name-rotated worlds; non-trivial = the matrix contains requests by database-bound or revoked keys (always: the fixture guarantees both)",
+        "1-13 generated admin actions, a quarter of them on top of the empty key map (every fixture binding removed first), (set_api_key supplied / generated / reusing a retired key, remove_api_key - also while the primary database is read-only and the registry cannot be persisted -, close, open/connect, restart, database and collection read-only, document and extension writes, flush) on top of the fixture, then the COMPLETE request matrix in six name-rotated worlds; non-trivial = the matrix contains requests by database-bound or revoked keys (always: the fixture guarantees both)",
         (16, 400),
         case_strategy,
         |c, ctx| run_case(t, c, ctx),
